@@ -840,6 +840,8 @@ def gen_many_scripts(tier, seed, variant):
             out.append(gen_table.make_script(rng, f"q{seed}_{i}"))
         else:
             out.append(gen_map.make_script(rng, f"q{seed}_{i}", many=True))
+    for i in range(n):
+        out.append(gen_table.make_many_script(rng, f"qm{seed}_{i}"))
     return "".join(out)
 
 def check_c15(run):
@@ -860,7 +862,7 @@ def check_c15(run):
     return script_property(
         run, gen_many_scripts,
         relevant=lambda f: f.kind == "CRASH" or (f.kind in ("A-FAIL", "H-FAIL", "B-FAIL") and (op_in(f, ("getmanymut", "tgetmanymut")) or "two mutable references" in f.text or f.text.startswith("ZST"))),
-        rule="HashMap histories with get_many_key_value_mut / get_many_mut on N = 0..4 keys (present, absent, repeated, colliding in position and tag bits under the 8 hash-plan classes) and HashTable histories with get_many_mut whose closures are key equalities or value-class predicates matching several entries; the harness compares the addresses of the returned &mut (two equal addresses = finding) and writes through them; results (request order, Some/None, which entry), the written values and the duplicate panic are compared with the extracted model (HashMap::get_many_mut = RawTable::get_many_mut with key closures = Table.table_step TGetManyMut) and judged by the reference multiset; plus a dedicated probe of tables of 1..20 zero-sized elements with every tuple of up to 3 requests over present / absent / repeated hashes (799 calls: must panic exactly when two requests name the same present entry)",
+        rule="HashMap histories with get_many_key_value_mut / get_many_mut on N = 0..4 keys (present, absent, repeated, colliding in position and tag bits under the 8 hash-plan classes) and HashTable histories with get_many_mut whose closures are key equalities or value-class predicates matching several entries; the harness compares the addresses of the returned &mut (two equal addresses = finding) and writes through them; plus dedicated get_many_mut scripts on tables whose elements share a tag, with closures from exact to always-true and requests under other elements' hashes (two different hashes resolving to one entry), adjacent and non-adjacent repeats; results (request order, Some/None, which entry), the written values and the duplicate panic are compared with the extracted model (HashMap::get_many_mut = RawTable::get_many_mut with key closures = Table.table_step TGetManyMut) and judged by the reference multiset; plus a dedicated probe of tables of 1..20 zero-sized elements with every tuple of up to 3 requests over present / absent / repeated hashes (799 calls: must panic exactly when two requests name the same present entry)",
         nontrivial_keys=("get_many_mut_2", "get_many_mut_3", "get_many_mut_4", "get_many_mut_2plus"))
 
 PROPS = {
